@@ -200,3 +200,24 @@ package vbft
 //@   loop 2 invariant forall p uint32 :: int(endorseCnt[p]) <= int(at(si, endorseCnt[p])) + 1 && (int(endorseCnt[p]) == int(at(si, endorseCnt[p])) + 1 ==> exists j int :: 0 <= j && j < it2 && !eSigs[j].ForEmpty && eSigs[j].EndorsedProposer == p) && int(at(si, endorseCnt[p])) <= it1
 //@   assert[c41-commit-needs-more-than-n-1-c] before "proposer = sig.EndorsedProposer" : endorseCnt[sig.EndorsedProposer] > gc
 //@   assert[c41-empty-commit-needs-more-than-n-1-c] after "forEmpty = emptyCnt > C" : forEmpty ==> emptyCnt > gc && int(emptyCnt) <= it1 + 1
+
+// Sealing: the proposer's signature first, then at most one signature per endorser index (the walk leaves an
+// endorser's list at its first matching entry), taken only from entries for this proposer and this variant of the
+// block (empty or not), never the proposer's own entry again; keys and signatures stay paired
+//@ func (*BlockPool).addSignaturesToBlockLocked
+//@   property C41
+//@   mode abstract
+//@   requires pool != nil && !isnil(pool.candidateBlocks) && block != nil && pool.server != nil && pool.server.peerPool != nil
+//@   requires forall b uint32 :: has(pool.candidateBlocks, b) ==> pool.candidateBlocks[b] != nil && wfCand(pool.candidateBlocks[b])
+//@   modifies *
+//@   loop 1 invariant len(bookkeepers) == len(sigData) && len(sigData) >= 1 && len(sigData) <= 1 + it1
+//@   loop 2 invariant len(bookkeepers) == len(sigData) && len(sigData) >= 1 && len(sigData) <= 1 + it1
+//@   assert[c41-seal-only-supporting-signatures] before "endoresrPk := pool.server.peerPool.GetPeerPubKey(endorser)" : sig.EndorsedProposer == proposer && sig.ForEmpty == forEmpty && endorser != proposer
+//@ func (*Block).getProposer
+//@   inline
+//@ func (*Block).getBlockNum
+//@   inline
+//@ func (*PeerPool).GetPeerPubKey
+//@   property C41
+//@   mode abstract
+//@   modifies nothing
